@@ -1389,6 +1389,17 @@ class ModelBuilder:
         # Determine project reference
         project = parent if isinstance(parent, Project) else parent.project
 
+        # Two properties with the same id under the same parent cannot be told apart (a reference
+        # would silently mean the first one): that is an error in the file
+        if prop_type in ("task", "resource") and prop_id:
+            if isinstance(parent, (Task, Resource)):
+                siblings = list(parent.children)
+            else:
+                siblings = [node for node in (project.tasks if prop_type == "task" else project.resources) if not node.parent]
+            if any(str(node.id) == str(prop_id) for node in siblings):
+                where = f"in {parent.fullId}" if isinstance(parent, (Task, Resource)) else "at the top level"
+                raise ValueError(f"The {prop_type} id '{prop_id}' is defined twice {where}")
+
         obj: Union[Task, Resource, Any]
         if prop_type == "task":
             obj = Task(project, str(prop_id), str(prop_name), parent if isinstance(parent, Task) else None)
